@@ -13,6 +13,18 @@ mod plan;
 mod prng;
 mod specs;
 mod subjects;
+#[cfg(feature = "serde")]
+mod sexec;
+#[cfg(feature = "serde")]
+mod sio;
+#[cfg(feature = "serde")]
+mod smain;
+#[cfg(feature = "serde")]
+mod snode;
+#[cfg(feature = "serde")]
+mod splan;
+#[cfg(feature = "serde")]
+mod ssubj;
 
 use std::collections::BTreeSet;
 use std::io::{Read, Write};
@@ -38,7 +50,7 @@ fn make_plan(src: &str, base: u64, i: u64) -> Plan {
     }
 }
 
-fn run_seed(base: u64, i: u64) -> u64 {
+pub(crate) fn run_seed(base: u64, i: u64) -> u64 {
     let mut p = prng::Prng::new(base.wrapping_mul(0x2545_F491_4F6C_DD1D) ^ i.wrapping_mul(0xD6E8_FEB8_6659_FD93));
     p.next() >> 1
 }
@@ -77,15 +89,15 @@ fn add(a: &mut RunStats, b: &RunStats) {
     a.stalls += b.stalls;
 }
 
-fn quiet_panics() {
+pub(crate) fn quiet_panics() {
     std::panic::set_hook(Box::new(|_| {}));
 }
 
 /// Last run index started by this worker; a watchdog ends the process if one
 /// run does not finish (only possible if the code under test deadlocks).
-static PROGRESS: std::sync::atomic::AtomicU64 = std::sync::atomic::AtomicU64::new(u64::MAX);
+pub(crate) static PROGRESS: std::sync::atomic::AtomicU64 = std::sync::atomic::AtomicU64::new(u64::MAX);
 
-fn watchdog() {
+pub(crate) fn watchdog() {
     std::thread::spawn(|| {
         use std::sync::atomic::Ordering::Relaxed;
         let mut last = PROGRESS.load(Relaxed);
@@ -729,6 +741,10 @@ fn main() {
     #[cfg(feature = "fn-seam")]
     fnseam_rt::set_hook(exec::fn_seam_hook);
     let args: Vec<String> = std::env::args().collect();
+    #[cfg(feature = "serde")]
+    if let Some(code) = smain::main(&args) {
+        std::process::exit(code);
+    }
     let code = match args.get(1).map(String::as_str) {
         Some("gen") => {
             let s: u64 = args.get(2).and_then(|s| s.parse().ok()).unwrap_or(0);
